@@ -44,20 +44,14 @@ where
 
     let mut guess = initial;
 
-    let mut norm = guess.abs();
-    if norm <= tol {
-        return Ok(guess);
-    }
-
     while n < n_max {
         let (f_val, f_deriv_val) = poly.evaluate_derivative(guess);
-        let new_guess = guess - (f_val / f_deriv_val);
-        let new_norm = new_guess.abs();
-        if ((norm - new_norm) / norm).abs() <= tol || new_norm <= tol {
+        let step = f_val / f_deriv_val;
+        let new_guess = guess - step;
+        if step.abs() <= tol {
             return Ok(new_guess);
         }
 
-        norm = new_norm;
         guess = new_guess;
         n += 1;
     }
